@@ -80,7 +80,7 @@ def run_dist_family(ctx, cases, worker, nonumpy_pass=False, mc_cfgs=(), rule="",
         records.append(rec)
     ctx.evaluations += sum(len(r["obs"]) for r in records)
     ctx.log("Act T: TLC judges %d records (%d observations)" % (len(records), ctx.evaluations))
-    res = tlc.validate_traces("DTWTrace", "DTWTrace.cfg", records)
+    res = tlc.validate_traces("DTWTrace", "DTWTrace.cfg", records, canary_fields=["obs"])
     ctx.add_tv(res)
     if res.get("notes"):
         ctx.extra["reference_deviates_from_spec"] = len(res["notes"])
